@@ -101,6 +101,11 @@ CHECKS = {
          "Continuous quantifier; bounded-exhaustive over 6 molecules x l_max {4,6,8,12} x {promolecule at 2 isovalues, stockholder with explicit exterior, Molecule API, per-atom API} x {none, d_norm, esp} x 31 rotations (all words of length <= 2 over 5 generators + a seed-rotated one) combined with 3 translations, all atom permutations, reversed exterior; radial function re-evaluated through the batch path; ValueError for surfaces wholly or partly outside the bounds; ice II and acetic acid in rigidly rotated lattices through 4 Crystal APIs.",
          "Pose independence is up to discretisation: bounds per surface class and l_max calibrated on the unchanged tree (3-10x the worst observed over seeds 0..9), not derived; compiled root finder as built.",
          "2/C09"),
+ "C06": ("model_checking",
+         "complete enumeration of the mesher's cube-configuration space on padded free blocks (all 256 sign patterns x ambiguity-deciding magnitudes; two- and four-cell blocks) with manifold / level-location / winding-number oracles; plus bounded families of smooth fields and molecular surfaces",
+         "Layer 1: every corner-value assignment from {-2,-1,+1,+2} to a 2x2x2 free block (quick: all sign patterns x <= 2 large corners; thorough: all 65,536) and all 4,096 sign patterns x 4 magnitude patterns of a 3x2x2 block (thorough: + 3x3x2), under both gradient directions, anisotropic spacing, shifted blocks/grid shapes and a non-zero level: closed oriented manifold, vertices at linear crossings of straddling edges (or inside straddling cells), orientation fixed by gradient direction, every above-level sample enclosed (winding number +-1) and no other. Layers 2-4: 108 multi-blob fields, volume ladders, 5 molecules x promolecule/Hirshfeld surfaces along the separation ladder 1.0..0.2 raw and smoothed, user-level wrappers.",
+         "Compiled Lewiner kernel exercised as built (lookup tables and wrappers live); exact ties of the face decider are a recorded known finding; convergence bounds calibrated.",
+         "2/C06"),
 }
 
 ALL = ["C%02d" % i for i in range(1, 21)]
